@@ -732,6 +732,12 @@ impl Runner {
                 self.violation(
                     "C04", "panic", format!("scheduler: panic: {msg}")
                 );
+                // Background tasks carry the protocol exchanges between
+                // children, parents and the repository: a panic there is
+                // reachable from a peer's message.
+                self.violation(
+                    "C16", "panic", format!("scheduler: panic: {msg}")
+                );
                 self.dead = Some(format!("panic: {msg}"));
                 format!("PANIC {msg}")
             }
